@@ -80,6 +80,43 @@ SPECIAL = [
 ]
 
 
+def _large():
+    """size ladder: the same reaction shapes at sizes around typical shortcut thresholds
+    (64, 128, 256 atoms); hydrogens sit in bracket atoms on one side only"""
+    out = []
+    for k in (2, 30, 62, 63, 64, 70, 126, 130):
+        chain = "C" * k
+        diol = chain + "[C@H](O)[C@H](O)" + chain
+        enediol = chain + "C(O)=C(O)" + chain
+        dione = chain + "C(=O)C(=O)" + chain
+        out.append(diol + ">>" + enediol)            # H2 missing, both hydrogens from bracket atoms
+        out.append(diol + ">>" + diol)               # balanced
+        out.append(diol + ">>" + enediol + ".[H][H]")  # balanced
+        out.append(enediol + ">>" + dione)           # H2 missing, no bracket hydrogens involved
+        out.append("[NH3+]" + chain + "C(=O)[O-]>>N" + chain + "C(=O)O")  # balanced zwitterion / neutral
+        out.append("N" + chain + "C(=O)O.Cl>>[NH3+]" + chain + "C(=O)O")  # chloride missing
+    return out
+
+
+LARGE = _large()
+
+
+def _placeholders():
+    """valid but open-shell inputs: the hand-built reactions with atomic hydrogen / oxygen
+    reagents written on the reactant side (the notation the tool itself emits)"""
+    out = []
+    extra = ["CCCC(CC(=O)OC)C[N+]([O-])=O>>CCCC1CNC(=O)C1", "O=[N+]([O-])c1ccccc1C(=O)OC>>Nc1ccccc1C(=O)O",
+             "CC(=O)c1ccccc1C(=O)OCC>>CC(O)c1ccccc1C(=O)O", "OCc1ccccc1C(=O)OC>>O=Cc1ccccc1C(=O)O"]
+    for r in HAND + extra:
+        a, b = r.split(">>")
+        out.append(a + ".[H].[H]>>" + b)
+        out.append(a + ".[O]>>" + b)
+    return out
+
+
+PLACEHOLDERS = _placeholders()
+
+
 def dedupe(seq):
     seen, out = set(), []
     for s in seq:
@@ -257,7 +294,9 @@ def c03(text, row, spec):
                             observed=row, expected="reaction == input_reaction",
                             what="{} declined but returned as {}".format(text, row.get("reaction"))))
         t_in, t_ir = oracle.split_reaction(text), oracle.split_reaction(row.get("input_reaction"))
-        if t_ir is None or any(oracle.mols(a) != oracle.mols(b) for a, b in zip(t_in, t_ir)):
+        # (for open-shell inputs the tool's atom-map step rewrites [O]/[H] atoms, which the
+        # suite pins; what "the input" is there is C15's business, on its closed-shell domain)
+        if in_domain(text) and (t_ir is None or any(oracle.mols(a) != oracle.mols(b) for a, b in zip(t_in, t_ir))):
             out.append(dict(sub="declined-untouched", key=["declined-not-input"],
                             observed=row, expected=text,
                             what="{} declined but input_reaction is {}".format(text, row.get("input_reaction"))))
